@@ -22,10 +22,12 @@ def tla_set(xs):
     return "{" + ",".join(str(x) for x in xs) + "}"
 
 
-def reader_consts(kind, workers, chunks, terminated=True, bad=(), panic=(), empty=(), drop_after=None, variant=None):
+def reader_consts(kind, workers, chunks, terminated=True, bad=(), panic=(), empty=(), drop_after=None, variant=None,
+                  calls_after_err=0):
     c = {"Kind": '"%s"' % kind, "MaxWorkers": str(workers), "Chunks": list(chunks),
          "Terminated": "TRUE" if terminated else "FALSE", "BadUnits": tla_set(bad), "PanicUnits": tla_set(panic),
-         "EmptyUnits": tla_set(empty), "DropAfter": str(99 if drop_after is None else drop_after)}
+         "EmptyUnits": tla_set(empty), "DropAfter": str(99 if drop_after is None else drop_after),
+         "CallsAfterErr": str(calls_after_err)}
     c.update(ASBUILT)
     if variant:
         c.update(variant)
@@ -37,7 +39,7 @@ def write_model(base, consts, **kw):
     return core.write_model(base, consts, **kw)
 
 
-READER_INV = ["TypeOK", "InOrder", "NoFalseSuccess", "WorkerBound", "PushSeesOpen"]
+READER_INV = ["TypeOK", "InOrder", "NoFalseSuccess", "StickyError", "WorkerBound", "PushSeesOpen"]
 READER_PROPS = ["CallsReturn", "WorkersReleased", "Terminates"]
 
 
@@ -184,7 +186,7 @@ def expected_reader(s):
     fails = bool(s.get("bad")) or bool(s.get("panic")) or ("X" in s.get("chunks", []))
     if s["family"] == "lzma2_reader" and not s.get("terminated", True):
         fails = True
-    if s["family"] == "lzip_reader" and not s.get("chunks"):
+    if s["family"] == "lzip_reader" and (not s.get("chunks") or s.get("lzip_damage")):
         fails = True
     return "err" if fails else "ok"
 
@@ -198,6 +200,10 @@ def judge(s, r):
     base = {"family": fam, "class": cls, "fault": fault}
     if r.get("step_limit"):
         raise ToolError(f"step limit reached in scenario {s['id']} (infrastructure bound, not a verdict)")
+    if r.get("budget_blown"):
+        v.append(("C09", f"{fam}: the call did not finish within {s.get('op_budget')} source operations "
+                         f"(a file of {r.get('file_len')} bytes; {cls})", dict(base, outcome="unbounded_source_ops")))
+        return v
     if r["deadlock"]:
         v.append(("C09", f"{fam}: caller blocked forever ({cls}); blocked threads {r['blocked']}",
                   dict(base, outcome="deadlock")))
@@ -227,6 +233,9 @@ def judge(s, r):
             elif r["unit_count"] != r["expected_units"] and r["expected_len"] > 0:
                 v.append(("C18", f"{fam}: reports {r['unit_count']} units, stream has {r['expected_units']}",
                           dict(base, outcome="unit_count")))
+        if any(x != "err" for x in r.get("post_err", [])):
+            v.append(("C09", f"{fam}: a call after the error reported success ({r['post_err']}) ({cls})",
+                      dict(base, outcome="error_not_sticky")))
         elif r["outcome"] == "err" and exp == "ok":
             v.append(("C08", f"{fam}: valid stream rejected: {r['err_kind']} {r['err_msg']} ({cls})",
                       dict(base, outcome="spurious_error")))
@@ -272,6 +281,8 @@ def scenario_class(s):
             parts.append("early_drop")
         if s.get("empty"):
             parts.append("empty_unit")
+        if s.get("lzip_damage"):
+            parts.append("trailer_damage")
         return "+".join(parts) or "valid"
     parts = []
     if s.get("panic"):
@@ -288,3 +299,17 @@ def scenario_class(s):
 
 def trace_lines(r):
     return [json.dumps(e) for e in r["log"]]
+
+
+def scan_events(r):
+    """NDJSON events of the LZIPReaderMT constructor's backward member scan, derived from the seeks observed on
+    the source (see spec/Trace_LzipScan.tla)."""
+    ev = [{"ev": "Reset", "len": r["file_len"]}]
+    seeks = r["seeks"][: r["seeks_at_new"]]
+    # seeks[0] is SeekFrom::End(0); then alternately trailer / header positions
+    body = seeks[1:]
+    for i, (k, p) in enumerate(body):
+        ev.append({"ev": "Trailer" if i % 2 == 0 else "Header", "pos": p})
+    ok = not (r["outcome"] == "err" and r["err_msg"].startswith("new:"))
+    ev.append({"ev": "Done", "ok": 1 if ok else 0, "n": r["unit_count"] if ok else 0})
+    return ev
